@@ -1751,12 +1751,10 @@ namespace awkward {
 
     for (size_t i = 0;  i < others.size();  i++) {
       ContentPtr other = others[i];
-      if (VirtualArray* raw = dynamic_cast<VirtualArray*>(other.get())) {
-        head.push_back(raw->array());
+      while (VirtualArray* raw = dynamic_cast<VirtualArray*>(other.get())) {
+        other = raw->array();
       }
-      else {
-        head.push_back(other);
-      }
+      head.push_back(other);
     }
 
     return std::pair<ContentPtrVec, ContentPtrVec>(head, tail);
